@@ -27,8 +27,8 @@ package tar
 // as a directory at that very path
 //@ func applyDeferredUpdate
 //@   prop C38
-//@   arith int
+//@   arith int-assumed
 //@   modifies all
-//@   site[only_a_directory_is_updated] call:UpdateMetaUnix : arg0 == m.path && res("call:Lstat#0", 1) == nil && res("invoke:FileInfo.IsDir#0", 0)
+//@   site[only_a_directory_is_updated] call:UpdateMetaUnix : arg0 == m.path && res("call:Lstat#0", 1) == nil && res("invoke:IsDir#0", 0)
 //@   site[looks_at_the_same_path] call:Lstat : arg0 == m.path
-//@   site[asks_the_lstat_result] invoke:FileInfo.IsDir : arg0 == res("call:Lstat#0", 0)
+//@   site[asks_the_lstat_result] invoke:IsDir : arg0 == res("call:Lstat#0", 0)
